@@ -79,6 +79,11 @@ CHECKS={
    text='Exhaustive string enumeration: all strings of length 1-2 (thorough 1-3) over a 26-symbol alphabet with one symbol per transformation in the pipeline (quote, backslash, slash, LF, CR, TAB, NUL, US, DEL, <, >, &, NEL, NBSP, LS, PS, BOM, combining mark, 2-/3-/4-byte runes, U+FFFD, U+FFFF, brace) plus 20 long texts (64 KiB scanner boundaries +-1, 128 KiB, 300 KB; plain, 3-byte runes, alternating space / newline so that a space sits next to every possible cut) x {title, body} x {new task, new epic, set, plan epic, plan task} x {JSON stdin, flags, --body-stdin}; each accepted text is read back with show --json directly and again after compact and must be identical code point for code point (titles via flag or set: TrimSpace), blank-after-trim inputs must be rejected with nothing written.',
    note='argv cannot carry NUL or >128 KiB arguments (skipped, counted). Expected value uses Go\'s TrimSpace as the definition of surrounding white space.',
    technique='exhaustive small-scope input enumeration over real commands'),
+
+ 'C12': dict(engine='SEQ', level='model_checking', design='3/C12',
+   text='Exhaustive log-mutation enumeration: seeds (two CLI-produced logs incl. prune + result, a hand-merged log whose items share one timestamp; thorough: the legacy sample project) x {every truncation offset (quick: dense on the last two lines, every 7th elsewhere), every line delete / duplicate / adjacent swap, conflict markers / unknown event type / blank lines at every position, all permutations of the first 5 (6) lines, one (8) bit flips per byte, every field of every event replaced by null/0/true/[]/{}/""/malformed timestamps or removed, empty / CRLF / BOM / NUL / binary / no trailing newline, one line of 10 MiB-1 and 10 MiB+1}; on each content 11 read commands are run 3x (8x when sort keys tie) and 6 mutating commands once. Oracle: exit in {0,1}, never a panic or hang, exit 1 => `error:` message which for an unparsable line names file and 1-based line; repeated runs byte-identical; after all reads .ergo is byte-identical (a missing lock may appear); after a successful mutation other than compact the earlier events are all present, in order, with unchanged (type, ts, data).',
+   note='Output determinism is decided by repetition: Go\'s map-iteration seed is not an interceptable choice point (a difference is always real; absence after k runs is evidence). Everything else is enumerated.',
+   technique='exhaustive small-scope input (file content) enumeration over real commands'),
 }
 NA_REASON='check not built yet (work in progress; design in DESIGN.md)'
 m={"version":1,
